@@ -1,12 +1,30 @@
 #!/bin/bash
-# seed_run.sh <seed_id> <property> [tier]: apply the seeded change to /repo, run the check, undo it.
+# seed_run.sh <seed_id> <property> [tier]: apply the seeded change to /repo, run the check, undo it,
+# and record the outcome in /verif/seeded/<seed_id>/result.json.
 ID=$1; PROP=$2; TIER=${3:-quick}
 cd /repo || exit 2
 if [ -n "$(git status --porcelain --untracked-files=no)" ]; then echo "/repo is dirty"; exit 2; fi
 git apply /verif/seeded/$ID/patch.diff || { echo "patch does not apply"; exit 2; }
 cd /verif
+t0=$(date +%s)
 VERIF_EVIDENCE_DIR=/tmp/seed-evidence VERIF_REPLAY_DIR=/tmp/seed-replays bin/check $PROP --tier $TIER > /tmp/seedrun-$ID-$PROP.log 2>&1
 rc=$?
+t1=$(date +%s)
 git -C /repo checkout -- .
 grep -E "^VIOLATION|^\[violation\]|^UNDECIDED|^\[$PROP\]" /tmp/seedrun-$ID-$PROP.log | cut -c1-400
 echo "seed=$ID property=$PROP exit=$rc"
+python3 - "$ID" "$PROP" "$TIER" "$rc" "$((t1-t0))" <<'PY'
+import json, sys, re, os
+sid, prop, tier, rc, wall = sys.argv[1:6]
+log = open(f"/tmp/seedrun-{sid}-{prop}.log", errors="replace").read()
+vio = [l[:300] for l in log.splitlines() if l.startswith("[violation]")]
+und = [l[:300] for l in log.splitlines() if l.startswith("UNDECIDED")]
+p = f"/verif/seeded/{sid}/result.json"
+d = json.load(open(p)) if os.path.exists(p) else {"seed": sid, "runs": []}
+d["runs"] = [r for r in d["runs"] if not (r["property"] == prop and r["tier"] == tier)]
+d["runs"].append({"property": prop, "tier": tier, "exit": int(rc), "wall_s": int(wall),
+                  "outcome": {"0": "missed (check passed)", "1": "caught (VIOLATION)", "2": "undecided (exit 2: not a pass, not an alarm)"}.get(rc, rc),
+                  "failed_obligations": vio[:8], "undecided": und[:2]})
+d["caught"] = any(r["exit"] == 1 for r in d["runs"])
+json.dump(d, open(p, "w"), indent=1)
+PY
